@@ -5,7 +5,9 @@ two reporters as a step machine, next to a declarative reading of the same input
 post-order); TLC checks the clauses of the property on every input of three generator families
   struct   every hierarchy up to a number of reference lines, every kind of reference (plain name, another
            spelling, directory with default suite file, glob pattern, missing file; repeated and cyclic references)
-  verdict  every assignment of the 13 ways a case can end to the cases of a few simple hierarchies
+  verdict  every assignment of the 14 ways a case can end (PASS, FAIL, XFAIL, XPASS, SKIPPED, hard / validation /
+           syntax (instruction and [act]) / file access / preprocessor / internal error, unreadable and undecodable
+           file) to the cases of a few simple hierarchies
   listing  every way of listing the cases (plain, glob, missing, any order)
 (thorough: + seeded random hierarchies beyond those bounds, handed to TLC as a file) and exports, per input and
 reporter, what must be observed.  Every exported run is rendered as a directory tree of suite and case files and
@@ -19,13 +21,17 @@ import os
 import random
 import re
 import subprocess
+import threading
+import time
 import zlib
 from xml.etree import ElementTree
 
 from harness import core
 
 KINDS = ['PASS', 'FAIL', 'XFAIL', 'XPASS', 'SKIPPED', 'HARD_ERROR', 'VALIDATION_ERROR', 'SYNTAX_ERROR',
-         'ACT_SYNTAX_ERROR', 'FILE_ACCESS_ERROR', 'UNREADABLE', 'PRE_PROCESS_ERROR', 'INTERNAL_ERROR']
+         'ACT_SYNTAX_ERROR', 'FILE_ACCESS_ERROR', 'UNREADABLE', 'PRE_PROCESS_ERROR', 'INTERNAL_ERROR', 'UNDECODABLE']
+ERROR_IDENTS = ('HARD_ERROR', 'VALIDATION_ERROR', 'SYNTAX_ERROR', 'FILE_ACCESS_ERROR', 'PRE_PROCESS_ERROR',
+                'INTERNAL_ERROR')
 CLASS_KINDS = ['PASS', 'XFAIL', 'FAIL', 'HARD_ERROR', 'ACT_SYNTAX_ERROR', 'UNREADABLE']
 SUITE_KINDS = ['plain', 'alt', 'dir', 'glob', 'missing']
 INVARIANTS = ['TypeOK', 'InvalidIffDeclared', 'InvalidRunsNothing', 'EveryCaseOnce', 'SubSuitesFirst',
@@ -62,12 +68,13 @@ def cfg(nsub, ncases, families, suite_lines=0, suite_width=0, verdict_cases=0, c
 #   <root>.suite | exactly.suite      suite 0 (the command line argument)
 #   sJ/exactly.suite                  suite J (every one of 1..NSub exists, referenced or not);  lJ -> sJ (symlink)
 #   <dir of the listing suite>/<prefix>K.case     case K (unlisted cases: the home directory)
-#   emptydir/  dir.case/  pp.sh
+#   emptydir/  a-directory/ (also in every sJ)  pp.sh
 # Names sort like the numbers of the model (single digits).
 ROOT_NAMES = ['root.suite', 'top.suite', 'exactly.suite']
 CASE_PREFIXES = ['c', 'case-', 'k', 't']
 MARKER = '@MARKER@'
 HOME = '@HOME@'
+BAD_BYTES = '@BYTES-THAT-ARE-NOT-UTF-8@'
 PP_WORD = 'PREPROCESSOR-MUST-FAIL-ON-THIS-FILE'
 PP_SH = 'if grep -q %s "$1"; then echo refused >&2; exit 1; fi\ncat "$1"\n' % PP_WORD
 SYNTAX_DEFECTS = ['[no-such-section]\n', '[cases]\nfirst.case superfluous-argument\n', '[setup]\nno-such-instruction x\n',
@@ -100,6 +107,8 @@ def case_text(kind, name):
         return '# %s\n[setup]\n' % PP_WORD + mark + '[assert]\nexit-code == 0\n'
     if kind == 'INTERNAL_ERROR':
         return '[setup]\n' + mark + 'verif-stub 1 main=exc\n'
+    if kind == 'UNDECODABLE':
+        return '[setup]\n' + mark + '# ' + BAD_BYTES + '\n[assert]\nexit-code == 0\n'
     raise ValueError(kind)
 
 
@@ -167,9 +176,12 @@ def concretize(rec, seed=0):
             if not t:
                 return pick(salt, ['%s[x].case' % prefix, 'nomatch-*.case'])
             digits = ''.join(map(str, t))
-            return pick(salt, ['%s[%s].case' % (prefix, digits), '*[%s].case' % digits, '%s[%s].c*' % (prefix, digits)])
+            opts = ['%s[%s].case' % (prefix, digits), '*[%s].case' % digits, '%s[%s].c*' % (prefix, digits)]
+            if t == sorted(c for c in casedir if casedir[c] == sdir(s)):
+                opts += ['*.case', '*.case', '%s?.case' % prefix]     # every case file of the directory
+            return pick(salt, opts)
         if k == 'missing':
-            return pick(salt, ['nonexistent.case', 'dir.case', 'nonexistent-dir/%s' % casename(1)])
+            return pick(salt, ['nonexistent.case', 'a-directory', 'nonexistent-dir/%s' % casename(1)])
         raise ValueError(k)
 
     files = []   # (relative path, text) in creation order
@@ -217,19 +229,25 @@ def concretize(rec, seed=0):
         if rec['vd'][c - 1] == 'UNREADABLE':
             chmod0.append(p)
     files.append(('pp.sh', PP_SH))
-    rootarg = pick('rootarg', [rootname, rootname, './' + rootname, HOME + '/' + rootname]
-                   + (['.', HOME] if rootname == 'exactly.suite' else []))
+    # the current directory of the process: the directory of the root suite, or its parent
+    cwd = pick('cwd', ['home', 'home', 'parent'])
+    if cwd == 'parent':
+        rootarg = pick('rootarg', ['home/' + rootname] + (['home'] if rootname == 'exactly.suite' else []))
+    else:
+        rootarg = pick('rootarg', [rootname, rootname, './' + rootname, HOME + '/' + rootname]
+                       + (['.', HOME] if rootname == 'exactly.suite' else []))
     if rec['rep'] == 'junit':
         argv = ['suite', '--reporter', 'junit', rootarg]
     else:
         argv = ['suite'] + pick('progress-option', [[], [], ['--reporter', 'progress']]) + [rootarg]
     listed = set(c for s in reach for ln in rec['cl'][s] for c in ln['t'])
-    return dict(files=files, dirs=['emptydir', 'dir.case'] + ['s%d' % j for j in range(1, nsub + 1)],
+    return dict(files=files, cwd=cwd,
+                dirs=['emptydir', 'a-directory'] + [d for j in range(1, nsub + 1) for d in ('s%d' % j, 's%d/a-directory' % j)],
                 links=[['l%d' % j, 's%d' % j] for j in range(1, nsub + 1)], chmod0=chmod0, argv=argv, globs=globs,
                 stub=any(rec['vd'][c - 1] == 'INTERNAL_ERROR' for c in range(1, ncases + 1)),
                 unprivileged=bool(chmod0),
                 meta=dict(rootname=rootname, prefix=prefix, casedir={str(c): d for c, d in casedir.items()},
-                          listed=sorted(listed)))
+                          listed=sorted(listed), cwd=cwd))
 
 
 # ======================================================================================== execution (workers)
@@ -245,7 +263,8 @@ def _materialize(task, cd):
     for d in task['dirs']:
         os.makedirs(os.path.join(cd.home, d), exist_ok=True)
     for rel, text in task['files']:
-        cd.write({rel: text.replace(MARKER, marker).replace(HOME, cd.home)})
+        text = text.replace(MARKER, marker).replace(HOME, cd.home)
+        cd.write({rel: text.encode().replace(BAD_BYTES.encode(), b'\xff\xfe\x80') if BAD_BYTES in text else text})
     for rel, target in task['links']:
         os.symlink(target, os.path.join(cd.home, rel))
     readable = []
@@ -276,7 +295,7 @@ def exec_run(task, cd):
     marker, readable, unsorted_globs = _materialize(task, cd)
     argv = [a.replace(HOME, cd.home) for a in task['argv']]
     mp = stubmain.stub_main_program() if task['stub'] else inproc.default_main_program()
-    r = inproc.run_main(argv, cd, main_program=mp)
+    r = inproc.run_main(argv, cd, main_program=mp, cwd=cd.root if task.get('cwd') == 'parent' else None)
     return dict(exit=r['exit'], exception=r['exception'], stdout=r['stdout'][:60000], stderr=r['stderr'][:20000],
                 marks=_marks(marker), home=cd.home, uid=os.getuid(), chmod0_readable=readable,
                 unsorted_globs=unsorted_globs, cwd_ok=r['cwd_after'] == r['cwd_before'], how='in-process')
@@ -289,7 +308,8 @@ def exec_subprocess(task, cd):
     env = dict(os.environ, PYTHONPATH=os.path.join(runner.REPO, 'src'), TMPDIR=cd.tmp, PYTHONWARNINGS='ignore')
     env.pop('EXACTLY_VERIF_TRACE', None)
     p = subprocess.run(['/venv/bin/python', os.path.join(runner.REPO, 'src', 'default-main-program-runner.py')] + argv,
-                       cwd=cd.home, env=env, stdout=subprocess.PIPE, stderr=subprocess.PIPE, text=True, timeout=120)
+                       cwd=cd.root if task.get('cwd') == 'parent' else cd.home, env=env, stdout=subprocess.PIPE,
+                       stderr=subprocess.PIPE, text=True, timeout=120)
     return dict(exit=p.returncode, exception=None, stdout=p.stdout[:60000], stderr=p.stderr[:20000],
                 marks=_marks(marker), home=cd.home, uid=os.getuid(), chmod0_readable=readable,
                 unsorted_globs=unsorted_globs, cwd_ok=True, how='subprocess')
@@ -301,15 +321,18 @@ CASE_LINE = re.compile(r'^case  (.+): \(\d+\.\d+s\) ([A-Z_]+)$')
 FINAL_IDS = ('OK', 'ERROR', 'INVALID_SUITE')
 
 
-def _rel(path, home):
+def _rel(path, meta, home):
+    """a path as the program presents it -> relative to the directory of the root suite"""
     for h in (home, os.path.realpath(home)):
         if path.startswith(h + '/'):
             path = path[len(h) + 1:]
+    if meta.get('cwd') == 'parent' and path.startswith('home/'):
+        path = path[5:]
     return os.path.normpath(path)
 
 
 def suite_id(path, meta, home):
-    p = _rel(path, home)
+    p = _rel(path, meta, home)
     if p == meta['rootname']:
         return 0
     m = re.match(r'^[sl](\d)/exactly\.suite$', p)
@@ -317,7 +340,7 @@ def suite_id(path, meta, home):
 
 
 def case_id(path, meta, home):
-    p = _rel(path, home)
+    p = _rel(path, meta, home)
     d, b = os.path.split(p)
     m = re.match('^' + re.escape(meta['prefix']) + r'(\d)\.case$', b)
     if m and re.sub(r'^l(\d)$', r's\1', d) == meta['casedir'].get(m.group(1)):
@@ -403,6 +426,18 @@ def expected_doc(doc):
     return [doc['root'], [[s['tests'], s['bad'], [[c['c'], c['child']] for c in s['cases']]] for s in doc['suites']]]
 
 
+def same_events(got, want):
+    """equality of event sequences; an expected identifier SOME_ERROR stands for any of the error identifiers"""
+    if len(got) != len(want):
+        return False
+    for g, w in zip(got, want):
+        if w[0] == 'C' and w[2] == 'SOME_ERROR' and g[0] == 'C' and g[1] == w[1] and g[2] in ERROR_IDENTS:
+            continue
+        if g != w:
+            return False
+    return True
+
+
 def compare(rec, p, o, junit=None):
     """None, or 'Clause: detail'.  junit: the JUnit document to expect instead of rec['junit'] (a deviation)."""
     if o.get('exception') or o.get('no_termination') or o.get('worker_died') or o.get('harness_exception'):
@@ -417,10 +452,10 @@ def compare(rec, p, o, junit=None):
         return 'ProcessStateRestored: cwd'
     if rec['rep'] == 'progress':
         want = [list(e) for e in rec['log']] + [['ID', rec['final']]]
-        if p['events'] != want:
+        if not same_events(p['events'], want):
             if not rec['valid']:
                 return 'InvalidRunsNothing: stdout %s, specification %s' % (p['events'], want)
-            if p['events'][:-1] == want[:-1]:
+            if same_events(p['events'][:-1], want[:-1]):
                 return 'ProgressVerdict: final line %s, specification %s' % (p['events'][-1:], want[-1])
             return 'ProgressEvents: %s, specification %s' % (p['events'], want)
         return None
@@ -556,34 +591,61 @@ def replay_runs(ctx, recs, label, subprocess_sample=0):
     normal = [j for j, t in enumerate(tasks) if not t['unprivileged']]
     unpriv = [j for j, t in enumerate(tasks) if t['unprivileged']]
     obs = [None] * len(tasks)
-    with ctx.pool(init='harness.props.c16:worker_init') as pool:
+    rnd = random.Random(ctx.seed + 16)
+    plain = [j for j in normal if not tasks[j]['stub']]
+    sub_idx = rnd.sample(plain, min(subprocess_sample, len(plain)))
+    # both pools are forked before the second thread exists; the unprivileged one (unreadable case files) works
+    # beside the normal one
+    pool = ctx.pool(init='harness.props.c16:worker_init')
+    upool = ctx.pool(workers=8, unprivileged=True, init='harness.props.c16:worker_init') if unpriv else None
+    failure = []
+
+    def unprivileged_part():
+        try:
+            for j, o in zip(unpriv, upool.map('harness.props.c16:exec_run', [tasks[j] for j in unpriv], deadline=120,
+                                              chunk=8)):
+                obs[j] = o
+        except BaseException as ex:
+            failure.append(ex)
+
+    th = threading.Thread(target=unprivileged_part)
+    try:
+        if upool:
+            th.start()
         for j, o in zip(normal, pool.map('harness.props.c16:exec_run', [tasks[j] for j in normal], deadline=120, chunk=8)):
             obs[j] = o
-        rnd = random.Random(ctx.seed + 16)
-        plain = [j for j in normal if not tasks[j]['stub']]
-        sub_idx = rnd.sample(plain, min(subprocess_sample, len(plain)))
         sub_obs = pool.map('harness.props.c16:exec_subprocess', [tasks[j] for j in sub_idx], deadline=180, chunk=1)
-    if unpriv:
-        with ctx.pool(workers=8, unprivileged=True, init='harness.props.c16:worker_init') as pool:
-            for j, o in zip(unpriv, pool.map('harness.props.c16:exec_run', [tasks[j] for j in unpriv], deadline=120,
-                                             chunk=8)):
-                obs[j] = o
-                if o.get('uid') == 0 or o.get('chmod0_readable'):
-                    raise core.MachineryFailure('unprivileged worker can read a chmod 000 file: %s' % o)
+        if upool:
+            th.join()
+    finally:
+        pool.close()
+        if upool:
+            th.join()
+            upool.close()
+    if failure:
+        raise failure[0]
+    for j in unpriv:
+        if obs[j].get('uid') == 0 or obs[j].get('chmod0_readable'):
+            raise core.MachineryFailure('unprivileged worker can read a chmod 000 file: %s' % obs[j])
     stats = dict(runs=len(tasks), unprivileged_runs=len(unpriv), subprocess_runs=len(sub_idx), disagreements=0,
                  known=0, unsorted_globs=sum((o or {}).get('unsorted_globs', 0) for o in obs),
                  first_error_agrees=0, first_error_differs=0)
     projs = [None] * len(tasks)
+    failing = []
     for j, (r, t, o) in enumerate(zip(recs, tasks, obs)):
-        projs[j] = judge(ctx, r, t, o, stats)
+        projs[j] = judge(ctx, r, t, o, stats, failing)
     for j, o in zip(sub_idx, sub_obs):
-        judge(ctx, recs[j], tasks[j], o, stats)
+        judge(ctx, recs[j], tasks[j], o, stats, failing)
+    # smallest inputs first: the replay files that get written are the minimal examples
+    failing.sort(key=lambda f: f[0])
+    for _, sig, record, explained in failing:
+        ctx.fail(sig, record, explained_by=explained)
     ctx.cov['traces_validated_against_impl'] += len(tasks) + len(sub_idx)
     ctx.cov.setdefault('replay', {})[label] = stats
     return tasks, obs, projs
 
 
-def judge(ctx, rec, task, o, stats):
+def judge(ctx, rec, task, o, stats, failing):
     ctx.count()
     if nontrivial(rec):
         ctx.nontrivial(input_key(rec) + rec['rep'])
@@ -601,12 +663,14 @@ def judge(ctx, rec, task, o, stats):
                   observed={k: o.get(k) for k in ('exit', 'exception', 'stdout', 'stderr', 'marks', 'traceback',
                                                   'no_termination', 'worker_died', 'harness_exception')},
                   projected=p)
+    size = sum(len(l) for l in rec['sl']) + sum(len(l) for l in rec['cl']) + sum(len(ln['t']) for l in rec['cl'] for ln in l)
     if is_d6(rec, p, o):
         stats['known'] += 1
-        ctx.fail('ReportersAgree reporter=junit: a case with a syntax error in [act] has no failure/error element '
-                 'and is not counted', record, explained_by=D6)
+        failing.append((size, 'ReportersAgree reporter=junit: a case with a syntax error in [act] has no failure/error '
+                              'element and is not counted', record, D6))
     else:
-        ctx.fail('%s fam=%s reporter=%s %s' % (clause.split(':')[0], rec['fam'], rec['rep'], brief(rec)), record)
+        failing.append((size, '%s fam=%s reporter=%s %s' % (clause.split(':')[0], rec['fam'], rec['rep'], brief(rec)),
+                        record, None))
     return p
 
 
@@ -699,15 +763,35 @@ def negative_controls(ctx, recs, tasks, obs, projs):
 
 def run(ctx):
     quick = ctx.tier == 'quick'
+    t0 = time.time()
+    phases = ctx.cov.setdefault('phases_s', {})
     if quick:
         plans = [('main', dict(nsub=2, ncases=3, families=['struct', 'verdict', 'listing'], suite_lines=2, suite_width=2,
-                               verdict_cases=2, class_cases=3, list_cases=3, case_lines=2), None)]
+                               verdict_cases=2, class_cases=2, list_cases=3, case_lines=2), None)]
     else:
         plans = [('main', dict(nsub=2, ncases=4, families=['struct', 'verdict', 'listing'], suite_lines=3, suite_width=2,
                                verdict_cases=3, class_cases=4, list_cases=3, case_lines=3), None),
                  ('wide', dict(nsub=3, ncases=4, families=['struct'], suite_lines=2, suite_width=2), None),
                  ('random', dict(nsub=4, ncases=6, families=['file']), 3000)]
-    recs = []
+    # TLC: model checking (all workers, coverage) in this thread; the exports (one worker each) and the run that
+    # must refute the deviation of finding D6 beside it
+    background = []
+
+    def start(f, *a, **kw):
+        box = {}
+
+        def body():
+            try:
+                box['result'] = f(*a, **kw)
+            except BaseException as ex:
+                box['error'] = ex
+        th = threading.Thread(target=body)
+        th.start()
+        background.append((th, box))
+        return box
+
+    exports = []
+    prepared = []
     for name, c, n_random in plans:
         env = None
         if n_random:
@@ -716,19 +800,32 @@ def run(ctx):
                 for x in random_inputs(ctx.seed, n_random, c['nsub'], c['ncases']):
                     fh.write(json.dumps(x) + '\n')
             env = {'SUITE_INPUTS': path}
-        res = ctx.tlc('Suite', cfg(**c), coverage=True, name='mc-' + name, env=env)
-        ctx.require_coverage(res, ACTIONS)
-        recs += export(ctx, 'export-' + name, cfg(invariants=['Export'], properties=[], **c), env=env,
-                       expect=2 * n_random if n_random else None)
+        prepared.append((name, c, env))
+        exports.append(start(export, ctx, 'export-' + name, cfg(invariants=['Export'], properties=[], **c), env=env,
+                             expect=2 * n_random if n_random else None))
     # the model itself: with the deviation of finding D6 switched on, TLC must refute ReportersAgree
-    neg = ctx.tlc('Suite', cfg(nsub=1, ncases=2, families=['verdict'], verdict_cases=1, class_cases=1,
-                               deviations=[D6_DEVIATION]), name='deviation-D6', count=False, must_hold=False)
-    if neg.violated != 'ReportersAgree':
+    neg = start(ctx.tlc, 'Suite', cfg(nsub=1, ncases=2, families=['verdict'], verdict_cases=1, class_cases=1,
+                                      deviations=[D6_DEVIATION]), name='deviation-D6', count=False, must_hold=False,
+                workers=2)
+    try:
+        for name, c, env in prepared:
+            res = ctx.tlc('Suite', cfg(**c), coverage=True, name='mc-' + name, env=env)
+            ctx.require_coverage(res, ACTIONS)
+    finally:
+        for th, _ in background:
+            th.join()
+    for _, box in background:
+        if 'error' in box:
+            raise box['error']
+    if neg['result'].violated != 'ReportersAgree':
         raise core.MachineryFailure('ReportersAgree does not refute the deviation %s (TLC: %s)'
-                                    % (D6_DEVIATION, neg.violated))
+                                    % (D6_DEVIATION, neg['result'].violated))
     ctx.cov['negative_controls_rejected'] += 1
+    recs = [r for box in exports for r in box['result']]
+    phases['tlc'] = round(time.time() - t0, 1)
 
     tasks, obs, projs = replay_runs(ctx, recs, 'all runs', subprocess_sample=(16 if quick else 200))
+    phases['replay'] = round(time.time() - t0 - phases['tlc'], 1)
     negative_controls(ctx, recs, tasks, obs, projs)
     stats = ctx.cov['replay']['all runs']
     if stats['unsorted_globs'] == 0:
@@ -753,14 +850,16 @@ def run(ctx):
     ctx.cov['exhaustive'] = True
     ctx.cov['rule'] = (
         'every run TLC enumerates from Suite.tla, both reporters on the same tree: struct = every canonical hierarchy '
-        'with <= %d reference lines over root + %s sub-suite files, line kinds plain / other spelling / directory / '
-        'glob (every subset) / missing, incl. repeated and cyclic references, each valid one also without root cases, '
-        'all passing, and with a syntax error in each suite file; verdict = every assignment of the 13 kinds to <= %d '
-        'cases (6 class representatives to <= %d) in 3 shapes; listing = every sequence of <= %d case lines (plain, '
-        'glob over every subset of %d cases, missing) in root and root + sub-suite%s; non-trivial = anything but a '
-        'flat suite of plainly listed passing cases under the progress reporter, distinct by (input, reporter)'
-        % ((2, '2', 2, 3, 2, 3, '') if quick else
-           (3, '2 (and <= 2 lines over 3)', 3, 4, 3, 3, '; + 3000 seeded random hierarchies over 4 sub-suites / 6 cases')))
+        'with <= %s reference lines over the root and %s sub-suite files, line kinds plain / other spelling / '
+        'directory / glob (every subset) / missing, incl. repeated and cyclic references, each valid one also without '
+        'root cases, with every case passing, and with a syntax error in each suite file in turn; verdict = every '
+        'assignment of the %d kinds to <= %s cases%s, in 3 shapes (flat, first / last case in a sub-suite); listing = '
+        'every sequence of <= %d case lines (plain, glob over every subset of 3 cases, missing) in the root and in '
+        'root + sub-suite%s; non-trivial = anything but a flat suite of plainly listed passing cases under the progress '
+        'reporter, distinct by (input, reporter)'
+        % ((2, 2, len(KINDS), 2, '', 2, '') if quick else
+           (3, '2 (and <= 2 lines over 3)', len(KINDS), 3, ' (6 class representatives to 4)', 3,
+            '; + 3000 seeded random hierarchies over 4 sub-suites / 6 cases, judged by TLC (family file)')))
     ctx.assumptions += [
         'file names sort like the numbers of the model (sJ, <prefix>K.case with single digits); the way a reference is '
         'spelled (./x, x/../x, symlinked directory, quotes, glob syntax), the layout of the suite file (section order, '
